@@ -362,3 +362,135 @@ def proof_obligations(res, prop, modules, extra_obligations):
         ],
     })
     return failed
+
+
+# --------------------------------------------------------------------------- scratch crates
+
+def _scratch_dir(name):
+    d = os.path.join(SCRATCH, name)
+    if os.path.exists(d):
+        shutil.rmtree(d)
+    os.makedirs(os.path.join(d, "src"))
+    return d
+
+
+def scratch_crate(name, main_rs, features=("full",), default_features=True, extra_deps="", edition="2021",
+                  nightly=False):
+    """Writes a scratch crate that uses the REAL proc-macro from /repo (hooks off)."""
+    d = _scratch_dir(name)
+    feats = ", ".join(f'"{f}"' for f in features)
+    df = "" if default_features else ", default-features = false"
+    with open(os.path.join(d, "Cargo.toml"), "w") as f:
+        f.write(f"""[package]
+name = "{name.replace('-', '_')}"
+version = "0.0.0"
+edition = "{edition}"
+
+[workspace]
+
+[dependencies]
+derive_more = {{ path = "{REPO}", features = [{feats}]{df} }}
+{extra_deps}
+
+[profile.dev]
+debug = false
+opt-level = 0
+""")
+    with open(os.path.join(d, "src", "main.rs"), "w") as f:
+        f.write(main_rs)
+    lock = os.path.join(REPO, "Cargo.lock")
+    if os.path.exists(lock):
+        shutil.copy(lock, os.path.join(d, "Cargo.lock"))
+    return d
+
+
+def scratch_env():
+    env = dict(ENV)
+    env["CARGO_TARGET_DIR"] = os.path.join(SCRATCH, "target")
+    return env
+
+
+def scratch_check(d, nightly=False, timeout=1800):
+    """cargo check --message-format=json. Returns list of diagnostics (dicts) of level error|warning."""
+    cmd = ["cargo"] + (["+nightly"] if nightly else []) + ["check", "--offline", "--message-format=json", "--quiet"]
+    p = subprocess.run(cmd, cwd=d, env=scratch_env(), stdout=subprocess.PIPE, stderr=subprocess.PIPE, text=True, timeout=timeout)
+    diags = []
+    for line in p.stdout.splitlines():
+        if not line.startswith("{"):
+            continue
+        try:
+            m = json.loads(line)
+        except ValueError:
+            continue
+        if m.get("reason") == "compiler-message" and m.get("target", {}).get("name", "").startswith(os.path.basename(d).replace("-", "_")):
+            msg = m["message"]
+            if msg.get("level") in ("error", "warning"):
+                diags.append(msg)
+    return p.returncode, diags, p.stderr
+
+
+def diag_lines(msg):
+    """Line numbers in src/main.rs a diagnostic points to (following macro expansions)."""
+    lines = []
+
+    def walk(sp):
+        if sp.get("file_name", "").endswith("src/main.rs"):
+            lines.append(sp["line_start"])
+        exp = sp.get("expansion")
+        if exp and exp.get("span"):
+            walk(exp["span"])
+    for sp in msg.get("spans", []):
+        walk(sp)
+    return lines
+
+
+def scratch_run(d, nightly=False, timeout=1800):
+    """cargo run. Returns (rc, stdout, stderr)."""
+    cmd = ["cargo"] + (["+nightly"] if nightly else []) + ["run", "--offline", "--quiet"]
+    p = subprocess.run(cmd, cwd=d, env=scratch_env(), stdout=subprocess.PIPE, stderr=subprocess.PIPE, text=True, timeout=timeout)
+    return p.returncode, p.stdout, p.stderr
+
+
+def scratch_cleanup(d):
+    shutil.rmtree(d, ignore_errors=True)
+
+
+class CaseFile:
+    """Builds a main.rs made of `mod c<N> { ... }` blocks and remembers their line ranges."""
+
+    def __init__(self, prelude=""):
+        self.lines = prelude.split("\n")
+        self.ranges = []   # (case id, first line, last line) 1-based
+        self.mains = []
+
+    def add(self, cid, body, main_call=None):
+        start = len(self.lines) + 1
+        self.lines.append(f"pub mod c{cid} {{")
+        self.lines.append("    #![allow(unused_imports)] use super::*;")
+        self.lines += body.split("\n")
+        self.lines.append("}")
+        self.ranges.append((cid, start, len(self.lines)))
+        if main_call:
+            self.mains.append(main_call)
+
+    def source(self, main_extra=""):
+        return "\n".join(self.lines) + "\nfn main() {\n" + "\n".join(self.mains) + "\n" + main_extra + "\n}\n"
+
+    def case_of_line(self, line):
+        for cid, a, b in self.ranges:
+            if a <= line <= b:
+                return cid
+        return None
+
+    def errors_by_case(self, diags, level="error"):
+        out = {}
+        stray = []
+        for m in diags:
+            if m.get("level") != level:
+                continue
+            cids = {self.case_of_line(l) for l in diag_lines(m)} - {None}
+            if not cids:
+                stray.append(m.get("message", ""))
+            for c in cids:
+                out.setdefault(c, []).append((m.get("code") or {}).get("code", "") + ":" + m.get("message", ""))
+        return out, stray
